@@ -68,6 +68,9 @@ Proof. vm_compute. reflexivity. Qed.
 Theorem C20_no_lock_held_while_waiting : no_hold_while_waiting = true.
 Proof. vm_compute. reflexivity. Qed.
 
+Theorem C20_shared_fields_only_under_their_lock : fields_guarded = true /\ (50 <= field_accesses_seen)%nat.
+Proof. split; vm_compute; [reflexivity|repeat constructor]. Qed.
+
 Theorem C20_nothing_unclassified : no_unknown = true.
 Proof. vm_compute. reflexivity. Qed.
 
